@@ -111,3 +111,68 @@ def check(ctx, fn, rule="R-TRUNC"):
                       "'continuation bit clear' edge: when the input ends inside the encoding the partial value is returned "
                       "as if complete" % bad, fn.file, line or fn.line)
     return 1
+
+
+# ------------------------------------------------------------------ R-VARINT.threshold
+_MIRROR = {"Gt": "Lt", "Lt": "Gt", "Ge": "Le", "Le": "Ge"}
+_WRONG = {("Gt", 128), ("Le", 128), ("Ge", 127), ("Lt", 127)}
+
+
+def writer_threshold(ctx, fx, files, rule="R-VARINT.threshold", only=None):
+    """a continuation-bit (LEB128) writer - a function that masks with 0x7F, sets 0x80 and shifts by 7 - decides "more
+    bytes follow" by comparing the remaining value with the 7-bit limit. `value > 0x80` / `value >= 0x7F` (and their
+    negations) are off by one: for a 7-bit group equal to the limit the last byte written carries the continuation bit
+    (or a needless extra byte is cut), and the reader runs on into the following field."""
+    n = 0
+    for f in files:
+        for fid in fx.fn_ids(f):
+            if "::tests::" in fid or (only and not only(fid)):
+                continue
+            for k in range(fx.count(fid)):
+                fn = Fn(fx.raw(fid, k))
+                has_mask = has_or = False
+                shifted = set()
+                for loc, st in fn.iter_locs():
+                    if st[0] != "a" or st[2][0] != "bin":
+                        continue
+                    opn, x, y = st[2][1], st[2][2], st[2][3]
+                    cy = op_const(y)
+                    if opn == "BitAnd" and cy is not None and cy[0] == 127:
+                        has_mask = True
+                    if opn == "BitOr" and ((cy is not None and cy[0] == 128) or (op_const(x) is not None and op_const(x)[0] == 128)):
+                        has_or = True
+                    if opn in ("Shr", "ShrUnchecked") and cy is not None and cy[0] == 7 and op_local(x) is not None:
+                        shifted.add(op_local(x))
+                        if len(st[1]) == 1:
+                            shifted.add(st[1][0])
+                if not (has_mask and has_or and shifted):
+                    continue
+                n += 1
+                ctx.analysed_fns.add(fid)
+                bad = None
+                for loc, st in fn.iter_locs():
+                    if st[0] != "a" or st[2][0] != "bin" or st[2][1] not in _MIRROR:
+                        continue
+                    opn, x, y = st[2][1], st[2][2], st[2][3]
+                    if op_const(x) is not None and op_local(y) is not None:
+                        opn, x, y = _MIRROR[opn], y, x
+                    cy = op_const(y)
+                    l = op_local(x)
+                    if cy is None or l is None or cy[0] not in (127, 128):
+                        continue
+                    # the compared local is the shifted value or a plain copy of it
+                    src = {l}
+                    for d in fn.defs(l):
+                        if d[1] == "assign" and d[2][2][0] == "use" and op_local(d[2][2][1]) is not None:
+                            src.add(op_local(d[2][2][1]))
+                    if src & shifted and (opn, cy[0]) in _WRONG:
+                        bad = (opn, cy[0], st[3])
+                ctx.obligation(rule, fid, "continuation decided at the 7-bit limit", bad is None,
+                               sample={"fn": fid, "value_locals": sorted(fn.local_name(s) for s in shifted)[:3]})
+                if bad:
+                    ctx.violation(rule, fid, "continuation test %s %d" % (bad[0], bad[1]),
+                                  "%s writes 7-bit groups with a continuation bit but tests the remaining value with %s %#x (line %d): "
+                                  "a group equal to the limit is written as the last byte with its continuation bit set"
+                                  % (fid.rsplit("::", 1)[-1], bad[0], bad[1], bad[2]), fn.file, bad[2])
+    ctx.instance(rule + ".writers", n)
+    return n
